@@ -280,3 +280,8 @@ fn sq_capacity_limit_1() {
 fn sq_capacity_limit_2() {
     sq_capacity_limit(2);
 }
+
+/// Helper for other harness modules.
+pub(crate) fn mk_handle(index: usize) -> SpanHandle {
+    SpanHandle { index }
+}
